@@ -186,3 +186,32 @@ func checkResult(p *Program, res Result, mode string, cd codec) []Issue {
 	}
 	return out
 }
+
+// Interference returns an unparseable line of res that no event of p emits when it is run through
+// its own derivation path alone (Isolate), or nil. Such a line cannot be blamed on the encoder
+// (C01): it exists only because another logger or event was around.
+func Interference(p *Program, res Result) []byte {
+	var alone map[string]bool
+	for _, d := range res.Dests {
+		for _, w := range d {
+			if _, err := jsonref.ValidateLine(w.Data); err == nil {
+				continue
+			}
+			if alone == nil {
+				alone = map[string]bool{}
+				for j := range p.Events {
+					r := Run(Isolate(p, j))
+					for _, d2 := range r.Dests {
+						for _, w2 := range d2 {
+							alone[string(w2.Data)] = true
+						}
+					}
+				}
+			}
+			if !alone[string(w.Data)] {
+				return w.Data
+			}
+		}
+	}
+	return nil
+}
